@@ -415,3 +415,6 @@ def finish(stats, tier):
         if not stats["outcomes"].get(o):
             out.append("outcome never observed: " + o)
     return out
+
+
+RULE += ' Since rounds 10-11 also: an input path that is a symbolic link to a file under --isolate -S; nested isolate roots in four orders.'
